@@ -3,7 +3,9 @@
 package at once through an overlay (nothing is written to /repo). Every rule has to stay silent on each of them.
 The edits: (1) a builtin println of the receiver as first statement of every method, (2) an empty deferred closure as
 first statement of every function (go/ssa then spills results through a local and adds a recover block), (3) a dead
-branch `if false { panic(..) }`, (4) an unused unexported field and a harmless method on every struct of package ast.
+branch `if false { panic(..) }`, (4) an unused unexported field and a harmless method on every struct of package ast, (5) other spellings of comparisons in
+all packages at once (len(x) > 0 as != 0, == 0 as < 1, nil on the left, !(err == nil)), (6) an error built into a local
+before it is returned.
 Usage: benign_sweep.py [-j N]   exit 1 if any rule reports anything."""
 import re, json, glob, os, subprocess, sys, tempfile, concurrent.futures as cf
 HERE = os.path.dirname(os.path.dirname(os.path.abspath(__file__)))
@@ -61,6 +63,19 @@ def main():
         jobs.append(('empty defer / ' + pk, first_stmt(pk, 'defer func() {}()')))
         jobs.append(('dead branch / ' + pk, first_stmt(pk, 'if false { panic("never") }')))
     jobs.append(('unused field and method / ast', fields_and_methods()))
+    for name, pat, rep in [('len(x) > 0 as len(x) != 0', r'len\(([^()]+)\) > 0', r'len(\1) != 0'), ('len(x) == 0 as len(x) < 1', r'len\(([^()]+)\) == 0', r'len(\1) < 1'),
+                           ('x != nil as nil != x', r'(\b[\w.]+) != nil\b', r'nil != \1'), ('x == nil as nil == x', r'(\b[\w.]+) == nil\b', r'nil == \1'),
+                           ('if err != nil as if !(err == nil)', r'if err != nil \{', r'if !(err == nil) {'),
+                           ('return fmt.Errorf(..) through a local', r'(?m)^(\t+)return fmt\.Errorf\((.*)\)$', r'\1zzErr := fmt.Errorf(\2)\n\1return zzErr'),
+                           ('return x, fmt.Errorf(..) through a local', r'(?m)^(\t+)return ([^,()]+), fmt\.Errorf\((.*)\)$', r'\1zzErr := fmt.Errorf(\3)\n\1return \2, zzErr')]:
+        ov = {}
+        for pk in PKGS:
+            for f in files(pk):
+                src = open(f).read()
+                out, k = re.subn(pat, rep, src)
+                if k:
+                    ov[f] = out
+        jobs.append((name + ' / all packages', ov))
     fail = 0
     with cf.ThreadPoolExecutor(max_workers=j) as ex:
         for name, rc, bad in ex.map(run, jobs):
